@@ -18,6 +18,18 @@ use std::collections::BTreeMap;
 impl Expr {
     /// Evaluate the Expr, passing in a set of values
     pub async fn evaluate(&self, facts: &Value) -> Result<Value> {
+        #[cfg(reval_verif)]
+        if crate::verif::enabled() {
+            let result = self
+                .eval_rec(&mut EvalContext::new(
+                    &EMPTY_RULES,
+                    &mut FunctionCache::new(),
+                    facts,
+                ))
+                .await;
+            crate::verif::record_eval(self, &[], facts, &result);
+            return result;
+        }
         self.eval_rec(&mut EvalContext::new(
             &EMPTY_RULES,
             &mut FunctionCache::new(),
